@@ -449,3 +449,74 @@ Example C05_fxt_zero_amount_is_an_error :
   add_fxt_row exact (Some zero_pair_cad) zero_pair_usd = Ok (None, [], Some QErr.fxt_zero_amount) /\
   add_fxt_row dec (Some zero_pair_cad) zero_pair_usd = Ok (None, [], Some QErr.fxt_zero_amount).
 Proof. exact FxtNoPanic.zero_pair_is_an_error. Qed.
+
+(* ---- the whole Questrade converter (tx-export-convert) ----
+   excel.rs (header map, SheetReader::get / get_str / get_dec), questrade.rs
+   (sheet_to_txs), fx_tracker.rs (add_fxt_row, add_implicit_fxt, fx_tx) and the
+   pipeline of tx_export_convert_impl.rs (account check / filters / rate /
+   sort), as modelled in Model/Questrade.v: in exact arithmetic the run of the
+   converter on ANY decoded sheet - any cells, any header layout (missing,
+   repeated, blank, non-text header cells), both header policies, any options -
+   ends with a result (CSV rows + row errors, "Sheet was empty", or the
+   several-accounts message); it never panics and never stops otherwise.
+   [wide_enough]: every row is at least as wide as the header row; an
+   office::Range has this by construction (its rows are the chunks(width) of
+   one vector), and without it the model does panic at the row index of
+   excel.rs:39 (QtNoPanic.ragged_row_panics_in_model) - no decoded sheet does.
+   Under rust_decimal the statement is limited by class decimal-overflow and by
+   nothing else: C05_questrade_converter_dec_only_overflow.
+   Outside the model: xlsx decoding, f64 -> Decimal, Error cells - and a
+   Range of width 0: the model's sheet [] stands for a Range without rows
+   ("Sheet was empty"), but the Range that the office crate returns for a
+   worksheet without <dimension> and without cells is Range::default() of
+   size (0, 0), and on it the real sheet_to_txs panics in `sheet.rows()`
+   (chunks(0), "chunk size must be non-zero"): a genuine panic of the real
+   binary found while checking this theorem's input class against the code,
+   reported in design.d/qtnopanic.md (not expressible in the model as it is). *)
+From ACB Require Import Proofs.QuestradeProps Proofs.QtNoPanic.
+
+Theorem C05_questrade_converter_never_panics_exact : forall pol o sh,
+  wide_enough sh -> exists r, run exact pol o sh = Ok r.
+Proof. exact QtNoPanic.run_total. Qed.
+Check C05_questrade_converter_never_panics_exact : forall pol o sh,
+  wide_enough sh -> exists r, run exact pol o sh = Ok r.
+Print Assumptions C05_questrade_converter_never_panics_exact.
+
+(* the same for the rectangular sheets of C18, in the form of the task *)
+Theorem C05_questrade_converter_never_panics_exact_rect : forall o hdr rows,
+  Forall (fun r => length r = length hdr) rows ->
+  match run exact HeaderEnumerated o (hdr :: rows) with Panic _ => False | _ => True end.
+Proof.
+  intros o hdr rows H. apply QtNoPanic.run_exact_no_panic. apply QtNoPanic.rectangular_wide. exact H.
+Qed.
+Check C05_questrade_converter_never_panics_exact_rect : forall o hdr rows,
+  Forall (fun r => length r = length hdr) rows ->
+  match run exact HeaderEnumerated o (hdr :: rows) with Panic _ => False | _ => True end.
+Print Assumptions C05_questrade_converter_never_panics_exact_rect.
+
+(* rust_decimal arithmetic: the converter's only panic is an operator overflow
+   (the products price * shares and cad * usd, the difference - commission, the
+   quotient cad / usd): class decimal-overflow of C05 *)
+Theorem C05_questrade_converter_dec_only_overflow : forall pol o sh,
+  wide_enough sh ->
+  match run dec pol o sh with Ok _ => True | Rej _ => False | Panic p => p = PanicOverflow end.
+Proof. exact QtNoPanic.run_dec_only_overflow. Qed.
+Check C05_questrade_converter_dec_only_overflow : forall pol o sh,
+  wide_enough sh ->
+  match run dec pol o sh with Ok _ => True | Rej _ => False | Panic p => p = PanicOverflow end.
+Print Assumptions C05_questrade_converter_dec_only_overflow.
+
+(* Non-vacuity: the example export of C18 (USD buy, CAD sell, a paired
+   CAD/USD conversion, a USD dividend, a deposit) followed by a BUY whose
+   Quantity cell is a boolean and by a row with an unknown action: the sheet is
+   rectangular, the run yields 5 rows (from sheet rows 2, 5, 2, 3, 6) and the
+   two row errors, the same under rust_decimal. *)
+Example C05_questrade_converter_nonvacuous :
+  Forall (fun r => length r = length ex_header) (ex_rows ++ damaged_rows) /\
+  wide_enough np_sheet /\
+  length (out_rows (run exact HeaderEnumerated no_opts np_sheet)) = 5%nat /\
+  out_errs (run exact HeaderEnumerated no_opts np_sheet)
+  = [(8, QErr.bool_value Col.qty); (9, QErr.unrecognized_action)]%N /\
+  map b_row (out_rows (run exact HeaderEnumerated no_opts np_sheet)) = [2; 5; 2; 3; 6]%N /\
+  run dec HeaderEnumerated no_opts np_sheet = run exact HeaderEnumerated no_opts np_sheet.
+Proof. exact QtNoPanic.np_sheet_facts. Qed.
